@@ -361,6 +361,21 @@ def _same_dict(a, b):
     return z3.And(a.keys == b.keys, a.val == b.val)
 
 
+def _soft_items(s, j, pre, skip=None):
+    """the clauses of the first j keys of nf_cnf_dict (but `skip`) are soft clauses of wcnf"""
+    nf = s.es("nf_cnf_dict")
+    soft = s.soft(s.wcnf)
+    p = z3.Int("_si_p")
+    k = LInt.at(nf.keys, p)
+    cond = z3.And(0 <= p, p < j) if skip is None else z3.And(0 <= p, p < j, k != skip)
+    return [z3.IsSubset(pre.soft(pre.wcnf), soft), Forall([p], [LInt.at(nf.keys, p)], z3.Implies(cond, RC.key_soft(soft, z3.Select(nf.val, k))), "soft.items")]
+
+
+def _soft_one(s, j, pre):
+    soft = s.soft(s.wcnf)
+    return [z3.IsSubset(pre.soft(pre.wcnf), soft), RC.KeySoftN(soft, s.softc.t, j)]
+
+
 def _cc_inv_items(s, j, pre):
     lead = s.leading_conditional
     first = lead is s.es("v_cnf_dict")
@@ -382,9 +397,9 @@ Contract(
     modifies=["self.epistemic_state.vMin", "self.epistemic_state.fMin"],
     loops={
         1: LoopSpec("for (i, conditional) in leading_conditional.items()", _cc_inv_items),
-        2: LoopSpec("[... for c in conditional]", lambda s, j, pre: [s.A(s.wcnf) == DcP(s.conditional.t, j)]),
-        3: LoopSpec("[... for (j, softc) in self.epistemic_state['nf_cnf_dict'].items()]", lambda s, j, pre: [s.A(s.wcnf) == pre.A(pre.wcnf)]),
-        "3.1": LoopSpec("[... for s in softc]", lambda s, j, pre: [s.A(s.wcnf) == pre.A(pre.wcnf)]),
+        2: LoopSpec("[... for c in conditional]", lambda s, j, pre: [s.A(s.wcnf) == DcP(s.conditional.t, j), s.soft(s.wcnf) == pre.soft(pre.wcnf)]),
+        3: LoopSpec("[... for (j, softc) in self.epistemic_state['nf_cnf_dict'].items()]", lambda s, j, pre: [s.A(s.wcnf) == pre.A(pre.wcnf)] + _soft_items(s, j, pre, skip=s.i.t)),
+        "3.1": LoopSpec("[... for s in softc]", lambda s, j, pre: [s.A(s.wcnf) == pre.A(pre.wcnf)] + _soft_one(s, j, pre)),
     },
     properties=["C05", "C12"],
     fuel=5,
@@ -452,9 +467,9 @@ Contract(
     ghost_out={"qv": TList(TList(TInt)), "qf": TList(TList(TInt))},
     ghost_wit=lambda c, r: {"qv": c.vMin, "qf": c.fMin},
     loops={
-        1: LoopSpec("[... for c in conditional]", lambda s, j, pre: [s.A(s.wcnf) == DcP(s.conditional.t, j)]),
-        2: LoopSpec("[... for (j, softc) in self.epistemic_state['nf_cnf_dict'].items()]", lambda s, j, pre: [s.A(s.wcnf) == pre.A(pre.wcnf)]),
-        "2.1": LoopSpec("[... for s in softc]", lambda s, j, pre: [s.A(s.wcnf) == pre.A(pre.wcnf)]),
+        1: LoopSpec("[... for c in conditional]", lambda s, j, pre: [s.A(s.wcnf) == DcP(s.conditional.t, j), s.soft(s.wcnf) == pre.soft(pre.wcnf)]),
+        2: LoopSpec("[... for (j, softc) in self.epistemic_state['nf_cnf_dict'].items()]", lambda s, j, pre: [s.A(s.wcnf) == pre.A(pre.wcnf)] + _soft_items(s, j, pre)),
+        "2.1": LoopSpec("[... for s in softc]", lambda s, j, pre: [s.A(s.wcnf) == pre.A(pre.wcnf)] + _soft_one(s, j, pre)),
     },
     properties=["C05", "C12"],
     fuel=8,
